@@ -395,8 +395,14 @@ func (c *SizedLRU) Unreserve(size int64) error {
 }
 
 func (c *SizedLRU) removeElement(e *list.Element) {
-	c.ll.Remove(e)
 	kv := e.Value.(*entry)
+	if cur, ok := c.cache[kv.key]; !ok || cur != e {
+		// Not (or no longer) in the index, eg because another request
+		// removed it after the caller looked it up. Removing it again
+		// would subtract its size from the counters twice.
+		return
+	}
+	c.ll.Remove(e)
 	delete(c.cache, kv.key)
 	c.currentSize -= roundUp4k(kv.value.sizeOnDisk)
 	c.uncompressedSize -= roundUp4k(kv.value.size)
